@@ -14,8 +14,14 @@ def _reshape_split(t: T):
     """X.reshape(a, b, ...) -> (X, [a, b, ...])"""
     m = m_method(t, "reshape")
     if m is None:
-        return None
-    return m[0], m[1]
+        a = m_arrcall(t, "reshape") if t.op == "call" else None
+        if a is None or len(a) < 2:
+            return None
+        m = (a[0], list(a[1:]))
+    dims = list(m[1])
+    if len(dims) == 1 and strip_wrappers(dims[0]).op in ("tuple", "list"):   # reshape((a, b, ..)) == reshape(a, b, ..)
+        dims = list(strip_wrappers(dims[0]).args)
+    return m[0], dims
 
 
 def check_batched(ctx, fi: FuncInfo, cls: str, rule: str = "NI-1") -> int:
@@ -41,7 +47,22 @@ def check_batched(ctx, fi: FuncInfo, cls: str, rule: str = "NI-1") -> int:
     S = scans[0]
     f, init, xs, length = match_scan(S)
     ys = getitem(S, const(1))
-    members = list(xs.args) if xs.op == "tuple" else [xs]
+    def seq_members(t):
+        t = strip_wrappers(t)
+        if t.op in ("tuple", "list"):
+            return [y for a in t.args for y in ([a] if strip_wrappers(a).op not in ("star",) else [a])]
+        if t.op == "binop" and t.args[0] == "+":
+            l, r = seq_members(t.args[1]), seq_members(t.args[2])
+            if l is not None and r is not None:
+                return l + r
+        if t.op == "call" and func_name(t) in ("builtins.tuple", "builtins.list") and len(call_parts(t)[1]) == 1:
+            return seq_members(call_parts(t)[1][0])
+        return None
+
+    members = seq_members(xs) if strip_wrappers(xs).op in ("tuple", "list", "binop") or (
+        strip_wrappers(xs).op == "call" and func_name(strip_wrappers(xs)) in ("builtins.tuple", "builtins.list")) else None
+    if members is None:
+        members = [xs]
     # (a) every scanned member is X.reshape(self.n_batch, batch_size, ...)
     batch_size = None
     n_walkers = None
